@@ -35,6 +35,8 @@ var c08Sites = []hsite{
 	{line: "a <<\"E\"\n", ops: []string{"<<"}, delims: []string{"E"}, quoted: []bool{true}},
 	{line: "a <<E'F'\n", ops: []string{"<<"}, delims: []string{"EF"}, quoted: []bool{true}},
 	{line: "a <<E; b <<-F\n", ops: []string{"<<", "<<-"}, delims: []string{"E", "F"}, quoted: []bool{false, false}},
+	{line: "a <<-E <<E\n", ops: []string{"<<-", "<<"}, delims: []string{"E", "E"}, quoted: []bool{false, false}},
+	{line: "a <<-E; b <<'E'\n", ops: []string{"<<-", "<<"}, delims: []string{"E", "E"}, quoted: []bool{false, true}},
 	{line: "a <<E <<'F'\n", ops: []string{"<<", "<<"}, delims: []string{"E", "F"}, quoted: []bool{false, true}},
 	{line: "a <<'E' <<F\n", ops: []string{"<<", "<<"}, delims: []string{"E", "F"}, quoted: []bool{true, false}},
 	{line: "a <<\\E; b <<F\n", ops: []string{"<<", "<<"}, delims: []string{"E", "F"}, quoted: []bool{true, false}},
